@@ -86,6 +86,7 @@ class HistGen:
         self.k = 0
         self.stale = []       # keys of saved handles whose element was removed
         self.long_names = long_names
+        self.kit = {}
         self.sub = flavour == 'sub'
 
     # ------------------------------------------------------------ helpers
@@ -272,9 +273,103 @@ class HistGen:
         if v.all_node_cps():
             ops += ['connect', 'connect', 'add_child'] + ([] if self.sub else ['port_mirror'])
         op = r.choice(ops)
+        x = r.random()
+        if self.kit and x < 0.22:
+            sp = self.handle_fault(v, op)
+            if sp is not None:
+                return sp
         valid = r.random() < 0.3
         fn = getattr(self, 'f_' + op)
         return fn(v, valid)
+
+    # ------------------------------------------------------------ stale receivers, handles of another topology
+    RECEIVER = {'add_component': ('node', 'zn'), 'add_node_service': ('node', 'zn'), 'add_interface': ('svc', 'zs'),
+                'connect': ('svc', 'zs'), 'peer': ('a', 'zs'), 'unpeer': ('a', 'zs'), 'add_child': ('if', 'zif'),
+                'rename': ('el', None), 'set_props': ('el', None)}
+    FOREIGN = ('add_service', 'add_link', 'port_mirror', 'connect', 'peer', 'unpeer')
+
+    def handle_fault(self, v, op):
+        """a VALID call of kind `op` in which one handle is replaced: the receiver by the stale handle of a removed
+        (possibly re-added) element, or a handle-valued argument by a handle of the second live topology"""
+        r = self.rng
+        kinds = []
+        if 'stale' in self.kit and op in self.RECEIVER:
+            kinds.append('stale')
+        if 'stale' in self.kit and op in ('peer', 'unpeer'):
+            kinds.append('stale_arg')
+        if 'other' in self.kit and op in self.FOREIGN:
+            kinds += ['foreign'] * 2
+        if not kinds:
+            return None
+        base = getattr(self, 'f_' + op)(v, True)
+        if base is None:
+            if op in ('peer', 'unpeer') and len(self.svc_refs(v)) >= 1:
+                x = r.choice(self.svc_refs(v))
+                base = {'op': op, 'a': x[0], 'b': x[0], 'kw': []}
+            elif op == 'add_child' and v.all_node_cps():
+                base = {'op': 'add_child', 'name': self.fresh_name('ch'), 'node_id': self.nid('ch'), 'vlan': '300',
+                        'if': ['cp', v.all_node_cps()[0][1]]}
+            else:
+                return None
+        k = r.choice(kinds)
+        suffix = '_readded' if self.kit.get('stale') == 'readded' else ''
+        if k == 'stale':
+            field, key = self.RECEIVER[op]
+            if key is None:
+                key = r.choice(['zn', 'zc', 'zs', 'zif'])
+            base[field] = ['saved', key]
+            base['fault'] = 'stale_receiver' + suffix
+        elif k == 'stale_arg':
+            base['b'] = ['saved', 'zs']
+            base['fault'] = 'stale_handle_arg' + suffix
+        else:
+            base['fault'] = 'foreign_handle'
+            if op in ('add_service', 'add_link'):
+                ifs = list(base.get('ifs') or [])
+                pos = r.choice([0, len(ifs) // 2, len(ifs)])
+                ifs.insert(pos, ['other_if', r.randrange(2)])
+                base['ifs'], base['pos'] = ifs, pos
+            elif op == 'port_mirror':
+                base['to'] = ['other_if', r.randrange(2)]
+            elif op == 'connect':
+                base['if'] = ['other_if', r.randrange(2)]
+            else:
+                base['b'] = ['other_svc', 'o1']
+        return base
+
+    def make_kits(self):
+        """the elements whose handles the handle faults use"""
+        r = self.rng
+        self.kit = {}
+        if r.random() < 0.6:
+            nic = {'op': 'add_component', 'node': 'zn', 'name': 'znic', 'model_type': 'SmartNIC_ConnectX_6'}
+            if self.sub:
+                nic.update(node_id='zc-id', ns_id='zc-ns', if_ids=['zc-p1', 'zc-p2'], if_labels=2)
+            mk = [{'op': 'add_node', 'name': 'zn', 'site': 'S1', 'ntype': 'VM', 'node_id': 'zn-id' if self.sub else None}, nic,
+                  {'op': 'add_service', 'name': 'zs', 'nstype': 'L2Bridge', 'ifs': [], 'node_id': 'zs-id' if self.sub else None}]
+            for st in mk:
+                self.do(st, False)
+            for ref, key in ((['node', 'zn'], 'zn'), (['comp', 'zn', 'znic'], 'zc'), (['svc', ['top', 'zs']], 'zs')):
+                self.do({'op': 'save', 'ref': ref, 'as': key}, False)
+            self.do({'op': 'save_if', 'ref': ['node_if', 'zn', 0], 'as': 'zif'}, False)
+            self.stale.append('zif')
+            self.do({'op': 'remove_node', 'name': 'zn'}, False)
+            self.do({'op': 'remove_service', 'name': 'zs'}, False)
+            self.kit['stale'] = 'removed'
+            if r.random() < 0.5:
+                for st in mk:       # the same names (and, in a substrate topology, ids) again
+                    self.do(dict(st), False)
+                self.kit['stale'] = 'readded'
+        if r.random() < 0.5:
+            nic = {'op': 'add_component', 'node': 'om1', 'name': 'onic', 'model_type': 'SmartNIC_ConnectX_6', 'on': 'other'}
+            if self.sub:
+                nic.update(node_id='oc-id', ns_id='oc-ns', if_ids=['oc-p1', 'oc-p2'], if_labels=2)
+            for st in ({'op': 'add_node', 'name': 'om1', 'site': 'S1', 'ntype': 'VM', 'on': 'other', 'node_id': 'om1-id' if self.sub else None},
+                       nic,
+                       {'op': 'add_service', 'name': 'o1', 'nstype': 'L2Bridge', 'ifs': [], 'on': 'other',
+                        'node_id': 'o1-id' if self.sub else None}):
+                self.do(st, False)
+            self.kit['other'] = True
 
     # ------------------------------------------------------------ calls on existing elements
     def elements(self, v):
@@ -1054,6 +1149,7 @@ class HistGen:
     def run(self, n_build, n_tested):
         r = self.rng
         # initial topology
+        self.make_kits()
         if self.long_names:
             # a node and a NIC whose names make the derived peer-interface / link names hit the 255 limit
             total = r.choice([250, 251, 251, 252, 252])     # len(node)+1+len(comp)+3; the NIC's own service name needs +6 <= 255
@@ -1128,10 +1224,7 @@ def corpus():
     return out
 
 
-WITNESS_CASES = {
-    'C09_add_component_atomic_refuted': 'component_same_child_ids',
-    'C09_connect_interface_atomic_refuted': 'connect_long_link_name',
-}
+WITNESS_CASES = {}      # no `_refuted` theorem describes the running library any more (all repairs landed)
 
 
 def refuted_witnesses():
